@@ -1206,9 +1206,8 @@ func (x *vfExec) start(init *vfEvent) (*vfRun, error) {
 }
 
 func (x *vfExec) stop(r *vfRun) error {
-	r.srv.Stop()
 	done := make(chan struct{})
-	go func() { r.wg.Wait(); close(done) }()
+	go func() { r.srv.Stop(); r.wg.Wait(); close(done) }()
 	select {
 	case <-done:
 		return nil
